@@ -13,10 +13,47 @@ VERTS = {
 }
 
 
+def _line(p0, p1):
+    return {'kind': 'line', 'p0': p0, 'p1': p1, 'len': math.hypot(p1[0] - p0[0], p1[1] - p0[1])}
+
+
+def _arc(centre, r, th0, sweep):
+    """arc of radius r about centre from angle th0 over the signed angle sweep"""
+    return {'kind': 'arc', 'c': centre, 'r': r, 'th0': th0, 'sgn': 1.0 if sweep > 0 else -1.0, 'len': r * abs(sweep)}
+
+
+# Curves mixing straight pieces and circular arcs (arc-length parametrised; accepted by the repository's
+# PiecewiseParametrization like any other list of pieces): the joints have sides that are not mirror images.
+MIXED = {
+    # two segments of length pi joined by half circles of radius 1 (C^1 joints)
+    'Stadium': [_line((0.0, 0.0), (PI, 0.0)), _arc((PI, 1.0), 1.0, -PI / 2, PI),
+                _line((PI, 2.0), (0.0, 2.0)), _arc((0.0, 1.0), 1.0, PI / 2, PI)],
+    # the same with all four pieces of length 1 (radius 1/pi): break points 0, 1, 2, 3, 4
+    'Stadium1': [_line((0.0, 0.0), (1.0, 0.0)), _arc((1.0, 1 / PI), 1 / PI, -PI / 2, PI),
+                 _line((1.0, 2 / PI), (0.0, 2 / PI)), _arc((0.0, 1 / PI), 1 / PI, PI / 2, PI)],
+    # a diameter of length 2 closed by a half circle of radius 1 (right-angle corners between a segment and an arc)
+    'Dee': [_line((-1.0, 0.0), (1.0, 0.0)), _arc((0.0, 0.0), 1.0, 0.0, PI)],
+}
+
+
 class Geo:
     def __init__(self, name):
-        """name: shipped curve name or {'poly': [[x, y], ...], 'closed': bool}"""
+        """name: shipped curve name, a name in MIXED, or {'poly': [[x, y], ...], 'closed': bool}"""
         self.name = name if isinstance(name, str) else 'poly'
+        self.pieces = None
+        self.polygon = False
+        if isinstance(name, str) and name in MIXED:
+            self.circle = False
+            self.closed = True
+            self.pieces = MIXED[name]
+            br = [0.0]
+            for pc in self.pieces:
+                br.append(br[-1] + pc['len'])
+            self.breaks = np.array(br)
+            self.L = float(br[-1])
+            self.n_sides = len(self.pieces)
+            self.verts = None
+            return
         if name == 'Circle':
             self.circle = True
             self.L = 2 * PI
@@ -26,6 +63,7 @@ class Geo:
             self.n_sides = 1
             return
         self.circle = False
+        self.polygon = True
         if isinstance(name, str):
             V = VERTS[name]
             self.closed = name != 'UnitInterval'
@@ -41,6 +79,18 @@ class Geo:
         self.L = float(self.breaks[-1])
         self.n_sides = len(seg)
         self.dirs = np.diff(self.verts, axis=0) / seg[:, None]
+
+    def kind(self, side):
+        """what the self-interaction of an element on this piece depends on besides its size"""
+        if self.circle:
+            return 'circle'
+        if self.pieces is not None and self.pieces[side]['kind'] == 'arc':
+            r = self.pieces[side]['r']
+            return 'circle' if r == 1.0 else 'arc%r' % r
+        return 'straight'
+
+    def straight(self, side):
+        return self.kind(side) == 'straight'
 
     def side_of(self, a, b=None):
         """index of the side containing [a, b] (or the parameter a; the later side at a break point)"""
@@ -64,6 +114,14 @@ class Geo:
         s = np.asarray(s, dtype=float)
         if self.circle:
             return np.array([np.cos(s), np.sin(s)])
+        if self.pieces is not None:
+            pc = self.pieces[side]
+            u = s - self.breaks[side]
+            if pc['kind'] == 'line':
+                d = ((pc['p1'][0] - pc['p0'][0]) / pc['len'], (pc['p1'][1] - pc['p0'][1]) / pc['len'])
+                return np.array([pc['p0'][0] + d[0] * u, pc['p0'][1] + d[1] * u])
+            th = pc['th0'] + pc['sgn'] * u / pc['r']
+            return np.array([pc['c'][0] + pc['r'] * np.cos(th), pc['c'][1] + pc['r'] * np.sin(th)])
         p0 = self.verts[side]
         d = self.dirs[side]
         u = s - self.breaks[side]
@@ -89,6 +147,18 @@ class Geo:
                     bd = np.where(m, dist, bd)
             return best
         P = self.point(side_x, x)
+        if self.pieces is not None:
+            pc = self.pieces[side_y]
+            if pc['kind'] == 'line':
+                dv = ((pc['p1'][0] - pc['p0'][0]) / pc['len'], (pc['p1'][1] - pc['p0'][1]) / pc['len'])
+                u = (P[0] - pc['p0'][0]) * dv[0] + (P[1] - pc['p0'][1]) * dv[1] + self.breaks[side_y]
+                return np.clip(u, c, d)
+            # nearest point of an arc: the angle of P about the centre, measured from the middle of [c, d]
+            mid = 0.5 * (c + d)
+            th_mid = pc['th0'] + pc['sgn'] * (mid - self.breaks[side_y]) / pc['r']
+            ang = np.arctan2(P[1] - pc['c'][1], P[0] - pc['c'][0])
+            delta = np.angle(np.exp(1j * (ang - th_mid))) * pc['sgn']
+            return np.clip(mid + pc['r'] * delta, c, d)
         p0 = self.verts[side_y]
         dvec = self.dirs[side_y]
         u = (P[0] - p0[0]) * dvec[0] + (P[1] - p0[1]) * dvec[1] + self.breaks[side_y]
@@ -98,6 +168,9 @@ class Geo:
         """Euclidean distance of two points of one piece"""
         if self.circle:
             return 2 * abs(math.sin(abs(s2 - s1) / 2))
+        if self.pieces is not None and self.pieces[side]['kind'] == 'arc':
+            r = self.pieces[side]['r']
+            return 2 * r * abs(math.sin(abs(s2 - s1) / (2 * r)))
         return abs(s2 - s1)
 
 
